@@ -1813,12 +1813,14 @@ func init() {
 		}
 		b.WriteString("].\n\n")
 		fmt.Fprintf(b, "(* ast.OperatorType.String *)\nDefinition gen_op_string : list (N * list N) := [")
-		for i, n := range names {
-			v := vals[n]
-			if int(v) >= len(table) {
+		for _, n := range names {
+			if v := vals[n]; int(v) >= len(table) {
 				return fmt.Errorf("OperatorType.String: %s (%d) is outside the table of %d entries", n, v, len(table))
 			}
-			if i > 0 {
+		}
+		// the whole table: it has entries (empty strings) for operators of the compiler that package ast does not name
+		for v := range table {
+			if v > 0 {
 				b.WriteString(";")
 			}
 			fmt.Fprintf(b, "\n  (%d, %s)", v, coqBytes(table[v]))
